@@ -40,6 +40,7 @@ D_validate_fast_path == {"validate_fast_path"}
 D_closed_suppresses_grace == {"closed_suppresses_grace"}
 D_verify_sets_connected_after_newer_disconnect == {"verify_sets_connected_after_newer_disconnect"}
 D_verification_failure_without_demotion == {"verification_failure_without_demotion"}
+D_takeover_continues_after_stop == {"takeover_continues_after_stop"}
 D_claim_after_stop == {"claim_after_stop"}
 D_conflict_transient == {"conflict_transient"}
 D_delete_without_owner_check == {"delete_without_owner_check"}
